@@ -26,7 +26,7 @@ def sorted_erts(s):
 
 
 def rand_history(rng, cfg, s, n, buf_extra, p_full=0.2, p_toggle=0.0, p_swap=0.0, p_other=0.15, maxlen=4,
-                 clock_inc=(0, 1, 1, 2, 5), p_same_addr=0.0):
+                 clock_inc=(0, 1, 1, 2, 5), p_same_addr=0.0, p_eager=0.0):
     erts = sorted_erts(s)
     pc_user = [m for m in s['pc_extra']]
     pcargs = lg.rand_struct_vals(rng, {'minal': 8, 'members': pc_user}, maxlen) if pc_user else []
@@ -60,7 +60,10 @@ def rand_history(rng, cfg, s, n, buf_extra, p_full=0.2, p_toggle=0.0, p_swap=0.0
     for i0 in range(min(2, len(oracle))):   # the open callback itself and the clock read in the opening function
         oracle[i0] = (oracle[i0][0], None, oracle[i0][2], oracle[i0][3])
     return {'calls': calls, 'oracle': oracle, 'pcargs': pcargs, 'buf': buf_bytes,
-            'same_addr': p_swap > 0 and rng.random() < p_same_addr}
+            'same_addr': p_swap > 0 and rng.random() < p_same_addr,
+            # eager (double-buffering) platform: the closing callback opens the next packet itself.  Not a platform
+            # of the Coq model: such histories are checked by the implementation-side oracles only
+            'eager': p_eager > 0 and rng.random() < p_eager}
 
 
 # ------------------------------------------------------------------ C glue
@@ -75,6 +78,7 @@ struct ans { int full; int toggle; int newbuf; unsigned inc; };
 static struct %(prefix)s%(st)s_ctx sctx;
 static uint8_t *buf;
 static int same_addr;      /* the platform re-installs the SAME address with another size */
+static int eager;          /* the closing callback opens the next packet itself (double buffering) */
 static const struct ans *oracle;
 static int or_n, or_i;
 static unsigned long long clk;
@@ -82,6 +86,7 @@ static const struct ans dflt = { 0, -1, -1, 1 };
 
 static struct ans pop(void) { if (or_i < or_n) return oracle[or_i++]; return dflt; }
 static void toggle(struct ans a) { if (a.toggle >= 0) %(prefix)senable_tracing(&sctx, a.toggle); }
+static void log_exit(int kind, int f0) { if (eager) { printf("5 %%d %%d %%d ", kind, f0, %(prefix)sis_in_tracing_section(&sctx)); fflush(stdout); } }
 static void log_cb(int kind) { printf("1 %%d %%d %%d ", kind, %(prefix)sis_in_tracing_section(&sctx), %(prefix)spacket_is_open(&sctx)); fflush(stdout); }
 static void ret(void)
 {
@@ -96,15 +101,16 @@ static void ret(void)
 
 GLUE_CBS = r'''
 %(clock_cb)s
-static int full_cb(void *d) { struct ans a; (void) d; log_cb(0); a = pop(); toggle(a); return a.full; }
+static int full_cb(void *d) { struct ans a; int f0 = %(prefix)sis_in_tracing_section(&sctx); (void) d; log_cb(0); a = pop(); toggle(a); log_exit(0, f0); return a.full; }
 static void plat_open(void *d)
 {
-	struct ans a; (void) d; log_cb(1); a = pop(); toggle(a);
+	struct ans a; int f0 = %(prefix)sis_in_tracing_section(&sctx); (void) d; log_cb(1); a = pop(); toggle(a);
 	%(prefix)s%(st)s_open_packet(&sctx%(pcargs)s);
+	log_exit(1, f0);
 }
 static void plat_close(void *d)
 {
-	struct ans a; uint32_t i, n; int was_open; (void) d; log_cb(2); a = pop(); toggle(a);
+	struct ans a; uint32_t i, n; int was_open; int f0 = %(prefix)sis_in_tracing_section(&sctx); (void) d; log_cb(2); a = pop(); toggle(a);
 	was_open = %(prefix)spacket_is_open(&sctx);
 	%(prefix)s%(st)s_close_packet(&sctx);
 	if (was_open && !%(prefix)spacket_is_open(&sctx)) {
@@ -122,7 +128,12 @@ static void plat_close(void *d)
 			}
 			%(prefix)spacket_set_buf(&sctx, buf, a.newbuf);
 		}
+		if (eager) {
+			/* double buffering: the next packet is opened at once */
+			%(prefix)s%(st)s_open_packet(&sctx%(pcargs)s);
+		}
 	}
+	log_exit(2, f0);
 }
 '''
 
@@ -132,7 +143,8 @@ int main(int argc, char **argv)
 	struct %(prefix)splatform_callbacks cbs;
 	int h = argc > 1 ? atoi(argv[1]) : 0;
 	memset(&cbs, 0, sizeof(cbs));
-	memset(&sctx, 0, sizeof(sctx));
+	/* the context memory is NOT zero-filled: whatever barectf_init() must establish, it has to establish itself */
+	memset(&sctx, 0xA5, sizeof(sctx));
 	%(set_clock)s
 	cbs.is_backend_full = full_cb;
 	cbs.open_packet = plat_open;
@@ -171,7 +183,7 @@ def make_glue(cfg, s, hists, prefix='barectf_', fprefix='barectf'):
     if s['clock']:
         ct = s['clock']['ctype']
         d['clock_cb'] = ('static %s clock_cb(void *d) { struct ans a; (void) d; log_cb(3); a = pop(); clk += a.inc; '
-                         'toggle(a); return (%s) clk; }' % (ct, ct))
+                         'toggle(a); return (%s) clk; }' % (ct, ct))   # (no exit event: the entry sample precedes the section)
         d['set_clock'] = 'cbs.%s_clock_get_value = clock_cb;' % s['clock']['name']
     else:
         d['clock_cb'] = ''
@@ -186,7 +198,12 @@ def make_glue(cfg, s, hists, prefix='barectf_', fprefix='barectf'):
             body.append('\tsame_addr = 1; buf = (uint8_t *) calloc(1, %d);' % mx)
         else:
             body.append('\tsame_addr = 0; buf = (uint8_t *) calloc(1, %d);' % h['buf'])
+        body.append('\teager = %d;' % (1 if h.get('eager') else 0))
         body.append('\t%sinit(&sctx, buf, %d, cbs, NULL);' % (prefix, h['buf']))
+        # fields barectf_init() documents nothing about and which the tracer writes before reading them once the
+        # first packet is open (S10): the model starts them at 0, so does the platform
+        body.append('\tsctx.parent.content_size = 0; sctx.parent.off_content = 0;' +
+                    (' sctx.cur_last_event_ts = 0;' if s['clock'] else ''))
         for c in h['calls']:
             if c[0] == 'trace':
                 e = erts[c[1]]
@@ -325,6 +342,8 @@ def split_events(toks):
             evs.append(tuple(toks[i:i + 12])); i += 12
         elif t == 4:
             evs.append(tuple(toks[i:i + 2])); i += 2
+        elif t == 5:      # eager platform only: callback exit (kind, flag at entry, flag at exit)
+            evs.append(tuple(toks[i:i + 4])); i += 4
         else:
             evs.append(('?',) + tuple(toks[i:])); break
     return evs
@@ -673,3 +692,103 @@ def probe_sizes(cfg, s, workdir, rng, nprobe=24, prefix='barectf_'):
     for pr, v in zip(probes, vals):
         pr['impl'] = int(v)
     return probes, None
+
+
+# ------------------------------------------------------------------ 32-bit arithmetic probe of _reserve_er_space
+def reserve_reference(psize, off, at, er, fulls):
+    """Decision of _reserve_er_space in UNBOUNDED arithmetic for a state with off <= at <= psize (what the
+    model's `reserve` computes with gt_diff32 on such states): returns (ret, callbacks, discards, at)."""
+    cbs, disc, fi = '', 0, 0
+    if er > psize - off:
+        return 0, cbs, 1, at
+    if at == psize:
+        cbs += 'F'
+        full = fulls[fi]; fi += 1
+        if full:
+            return 0, cbs, 1, at
+        cbs += 'O'; at = off
+    if er > psize - at:
+        cbs += 'C'; at = psize
+        cbs += 'F'
+        full = fulls[fi]; fi += 1
+        if full:
+            return 0, cbs, 1, at
+        cbs += 'O'; at = off
+    return 1, cbs, 0, at
+
+
+def probe_reserve(workdir, rng, prefix='barectf_', nrandom=400):
+    """Calls the REAL static _reserve_er_space() (by including barectf.c, NDEBUG) on hand-built contexts whose
+    positions range over the whole uint32_t domain (no buffer is touched by that function; the callbacks are
+    stubs that mimic an effective open / close) and compares every decision with the unbounded-arithmetic
+    reference.  Catches wrap-around slips that no run with a megabyte-sized buffer can reach."""
+    M = 2 ** 32 - 1
+    tuples = []
+    sizes = [64, 4096, 2 ** 31 - 8, 2 ** 31, 2 ** 31 + 8, 2 ** 32 - 64, 2 ** 32 - 8]
+    for psize in sizes:
+        for off in sorted({0, 8, 64, min(416, psize)}):
+            if off > psize:
+                continue
+            ats = sorted({off, off + 8, psize // 2, psize - 9, psize - 8, psize - 1, psize})
+            for at in ats:
+                if not (off <= at <= psize):
+                    continue
+                rem = psize - at
+                ers = {0, 1, 8, rem - 1, rem, rem + 1, psize - off - 1, psize - off, psize - off + 1,
+                       2 ** 31, M - at, M - at + 1, M - at + 8, M, 2 ** 31 + 64}
+                for er in ers:
+                    if 0 <= er <= M:
+                        for fulls in ((0, 0), (1, 0), (0, 1)):
+                            tuples.append((psize, off, at, er, fulls))
+    for _ in range(nrandom):
+        psize = rng.choice([rng.randrange(8, 2 ** 16), rng.randrange(2 ** 30, 2 ** 32)])
+        off = rng.randrange(0, min(psize, 4096) + 1)
+        at = rng.choice([off, psize, rng.randrange(off, psize + 1)])
+        er = rng.choice([rng.randrange(0, 2 ** 32), max(0, min(M, psize - at + rng.randrange(-2, 3))), max(0, min(M, M - at + rng.randrange(0, 64)))])
+        tuples.append((psize, off, at, er, (rng.randrange(2), rng.randrange(2))))
+    rows = ',\n'.join('\t{%uU, %uU, %uU, %uU, %d, %d}' % (a, b, c, e, f[0], f[1]) for a, b, c, e, f in tuples)
+    src = r"""
+#define NDEBUG
+#include "barectf.c"
+#include <stdio.h>
+#include <string.h>
+static struct %(p)sctx pctx;
+static char cbs[16]; static int ncb, nfull; static int fulls[2];
+static int p_full(void *d) { (void) d; cbs[ncb++] = 'F'; return fulls[nfull < 2 ? nfull++ : 1]; }
+static void p_open(void *d) { (void) d; cbs[ncb++] = 'O'; pctx.at = pctx.off_content; pctx.packet_is_open = 1; }
+static void p_close(void *d) { (void) d; cbs[ncb++] = 'C'; pctx.at = pctx.packet_size; pctx.packet_is_open = 0; }
+static const struct { uint32_t psize, off, at, er; int f0, f1; } T[] = {
+%(rows)s
+};
+int main(void)
+{
+	unsigned long i;
+	for (i = 0; i < sizeof(T) / sizeof(T[0]); i++) {
+		int ret;
+		memset(&pctx, 0, sizeof(pctx));
+		pctx.cbs.is_backend_full = p_full; pctx.cbs.open_packet = p_open; pctx.cbs.close_packet = p_close;
+		pctx.packet_size = T[i].psize; pctx.off_content = T[i].off; pctx.at = T[i].at;
+		pctx.packet_is_open = T[i].at != T[i].psize; pctx.is_tracing_enabled = 1; pctx.in_tracing_section = 1;
+		fulls[0] = T[i].f0; fulls[1] = T[i].f1; ncb = 0; nfull = 0; memset(cbs, 0, sizeof(cbs));
+		ret = _reserve_er_space(&pctx, T[i].er);
+		printf("%%d %%s. %%u %%u\n", ret, cbs, (unsigned) pctx.events_discarded, (unsigned) pctx.at);
+	}
+	return 0;
+}
+""" % {'p': prefix, 'rows': rows}
+    with open(os.path.join(workdir, 'rprobe.c'), 'w') as f:
+        f.write(src)
+    rc, out = bt.cc(['-w', '-O0', 'rprobe.c', '-o', 'rprobe'], cwd=workdir)
+    if rc != 0:
+        return None, 'reservation probe does not compile: ' + out[-600:]
+    p = subprocess.run([os.path.join(workdir, 'rprobe')], capture_output=True, text=True, timeout=60)
+    lines = p.stdout.splitlines()
+    if p.returncode != 0 or len(lines) != len(tuples):
+        return None, 'reservation probe failed: rc %s, %d/%d lines' % (p.returncode, len(lines), len(tuples))
+    res = []
+    for t, l in zip(tuples, lines):
+        ret, cb, disc, at = l.split()
+        impl = (int(ret), cb[:-1], int(disc), int(at))
+        res.append({'packet_size': t[0], 'off_content': t[1], 'at': t[2], 'er_size': t[3], 'backend_full_answers': list(t[4]),
+                    'impl': impl, 'expected': reserve_reference(*t)})
+    return res, None
